@@ -9,8 +9,8 @@ type tagBlockNode struct {
 	name string
 }
 
-// maxSuperDepth bounds how many block.Super calls (and macro calls: they are counted
-// together, see executionNesting) may be executing at once. They add up over nested
+// maxSuperDepth bounds how many blocks, block.Super calls (and macro calls: they are
+// counted together, see executionNesting) may be executing at once. They add up over nested
 // blocks (every level of an inheritance chain for every block around), so the bound is
 // wider than the one on nested templates; it is there for definitions that render each
 // other through block.Super in a cycle.
@@ -35,6 +35,20 @@ func (node *tagBlockNode) Execute(ctx *ExecutionContext, writer TemplateWriter) 
 	tpl := ctx.template
 	if tpl == nil {
 		panic("internal error: tpl == nil")
+	}
+
+	// Entering a block counts as a nested call of the rendering, like a macro call or
+	// block.Super: the definition that is executed is the most-derived one, which lives in
+	// another template of the chain and brings that template's own nesting with it. (The
+	// nesting bound is a bound per template source; only together with this count does it
+	// bound what a recursion through overridden blocks puts on the stack.)
+	nesting := ctx.nested()
+	nesting.calls++
+	defer func() {
+		nesting.calls--
+	}()
+	if nesting.calls > maxSuperDepth {
+		return ctx.Error(fmt.Sprintf("maximum nesting of blocks reached (max is %d): block definitions rendering each other in a cycle?", maxSuperDepth), nil)
 	}
 
 	// Determine the block to execute
